@@ -144,12 +144,19 @@ impl Prop for Framing {
         if crate::runner::UNDER_BALLAST.load(std::sync::atomic::Ordering::Relaxed) {
             world.borrow_mut().stat("runs_next_to_a_connection_holding_tens_of_MiB");
         }
+        // ... and one in eight with a connection that is split at once, its two halves driven by two
+        // tasks (both directions busy, one half mid-operation while the other starts, ends or is dropped)
+        let want_duplex = seeded && world.borrow_mut().tape.draw(8) == 6;
+        let mut duplex: Option<Rc<RefCell<crate::neighbours::DuplexResult>>> = None;
         let mut second: Option<Rc<RefCell<crate::neighbours::SecondResult>>> = None;
         {
             let mut conn = Connection::new(W::socket(world, rd, wr));
             let mut ex = Exec::new();
             if want_second {
                 second = Some(crate::neighbours::spawn_second_connection(&mut ex, world));
+            }
+            if want_duplex {
+                duplex = Some(crate::neighbours::spawn_split_duplex(&mut ex, world, cancel));
             }
             let results2 = results.clone();
             let used2 = used.clone();
@@ -252,6 +259,11 @@ impl Prop for Framing {
         // ---- oracle
         if let Some(sr) = &second {
             if let Some(f) = crate::neighbours::judge_second(id, &sr.borrow()) {
+                return Err(f);
+            }
+        }
+        if let Some(dr) = &duplex {
+            if let Some(f) = crate::neighbours::judge_duplex(id, world, &dr.borrow()) {
                 return Err(f);
             }
         }
